@@ -229,6 +229,25 @@ m2 26000 -0.7 6012 -0.3
 
 m5 1001 -1.5d-1 8016 -8.5-1
 ''', []),
+    'equal_value_densities': ('''one material at numerically equal densities spelled differently: one composition per spelling
+1 1 -1 -1 imp:n=1
+2 1 -1.0 1 -2 imp:n=1
+3 2 .5 2 -3 imp:n=1
+4 2 0.5 3 -4 imp:n=1
+5 1 -1.5e1 4 -5 imp:n=1
+6 1 -15 5 -6 imp:n=1
+7 0 6 imp:n=0
+
+1 so 1
+2 so 2
+3 so 3
+4 so 4
+5 so 5
+6 so 6
+
+m1 1001 1.0
+m2 8016 1 1001 2
+''', []),
     'bc_on_merged_duplicate': ('''flag carried by a surface merged into its duplicate
 1 1 -1.0 -1 2 imp:n=1
 2 0 1 : -3 imp:n=0
